@@ -200,6 +200,10 @@ class TLV:
                     result.append(0)
                 else:
                     raise ValueError("Separator must not have data")
+            elif len(value) == 0:
+                # a zero-length value is still an item on the wire (type, 0)
+                result.append(key)
+                result.append(0)
 
             while len(value) > 0:
                 result.append(key)
